@@ -29,7 +29,7 @@ REQUIRED = ["pin_oe", "pin_o_when_enabled", "alt_mode", "read_data", "input_dela
 
 
 def n_cases(tier):
-    return 120 if tier == "quick" else 1800
+    return 200 if tier == "quick" else 2400
 
 
 def gen_case(rng, tier, idx):
